@@ -145,8 +145,8 @@ Definition range (start e step : Z) : res (list Z) :=
         let k := Z.quot (start - e - 1) st in
         (start - k * st, start + 1, st)
       else (start, e, step) in
-    with_cap (Z.quot (e' - start' + step' - 1) step')
-             (range_loop (Z.to_nat (e' - start')) start' e' step').
+    let cap := Z.quot (e' - start' + step' - 1) step' in    (* = the number of iterations *)
+    with_cap cap (range_loop (Z.to_nat cap) start' e' step').
 
 (* ---------------------------------------------------------------- NewSortedInts *)
 (* in-place removal of repeats from the sorted copy tmp *)
